@@ -11,6 +11,7 @@ import (
 
 	"github.com/openfga/openfga/internal/cachecontroller"
 	"github.com/openfga/openfga/internal/verifh/core"
+	"github.com/openfga/openfga/internal/verifh/e1"
 	"github.com/openfga/openfga/internal/verifh/e2"
 	"github.com/openfga/openfga/internal/verifh/ref"
 	"github.com/openfga/openfga/pkg/server"
@@ -356,7 +357,7 @@ func C11(o *core.Options) int {
 	r := core.NewReport(o, "model_checking",
 		"every history over {write/delete each pool tuple, bulk write of 60 unrelated tuples (more than one changelog page), cached-mode request vector, 'inv' = cached-mode request that triggers the cache controller followed by waiting for the invalidation run to complete, cached-mode request vector whose answers are CHECKED} up to the depth bound, replayed from scratch per history, with the cache controller on together with either the query cache or the iterator caches, default and weighted-graph engines; invariant: a checked vector that follows an 'inv' which itself follows the last write equals the reference for the current store (staleness before that, including mixtures of stale and fresh sub-answers, is allowed behaviour)")
 	r.Assume("memory datastore; real clock with cache TTLs of one hour and controller interval 1ns (every cached-mode request may start an invalidation run); completion of a run is observed through an exported wait on the controller's WaitGroup (overlay file x/internal/cachecontroller)",
-		"TTL-window straddling needs a controllable clock and is not decided here")
+		"TTL-window straddling, clock advances, the invalidation interval and runs overlapping with requests and writes need a controllable clock: they are not decided by the Server-API histories but by the component-level harness on a harness clock (coverage.clock_controlled_component_level, binary cctl)")
 	worlds := histWorlds()
 	// The property's configurations: controller + query cache, or controller + iterator caches. Shared
 	// iterators are a separate feature with their own (10 s admission) staleness window and are left out.
@@ -372,6 +373,9 @@ func C11(o *core.Options) int {
 	}
 	var jobs []job
 	if o.Replay != "" {
+		if isSub, code := e1.ReplaySub(o, "cctl"); isSub {
+			return code // a history or schedule recorded by the clock-controlled component harness (h/cctl)
+		}
 		var hc histCase
 		if err := core.LoadReplay(o.Replay, &hc); err != nil {
 			fmt.Println("replay:", err)
@@ -541,6 +545,11 @@ func C11(o *core.Options) int {
 	close(ch)
 	<-done
 	r.States, r.Transitions, r.Traces = int64(len(states)), transitions, transitions
+	if o.Replay == "" {
+		// clock advances, TTL expiry, the iterator-TTL window, the invalidation interval and runs that overlap
+		// with requests and writes are decided at component level on a harness clock
+		c11ClockControlled(o, r)
+	}
 	return r.Finish()
 }
 
